@@ -14,11 +14,13 @@ cp -r /repo/src /repo/tests /repo/Cargo.toml /repo/Cargo.lock "$D/repo/" 2>/dev/
 cd "$D/repo"
 export CARGO_NET_OFFLINE=true CARGO_TARGET_DIR="$D/target"
 demo_kind=integration
+FEAT=""
+head -2 "$S/demo.rs" | grep -q "features serde" && FEAT="--features serde"
 head -3 "$S/demo.rs" | grep -qi "append" && demo_kind=incrate
 run_demo() {   # prints PASS / FAIL
   if [ $demo_kind = integration ]; then
     cp "$S/demo.rs" tests/zz_demo.rs
-    if cargo test --offline --test zz_demo >"$D/demo.log" 2>&1; then echo PASS; else echo FAIL; fi
+    if cargo test --offline $FEAT --test zz_demo >"$D/demo.log" 2>&1; then echo PASS; else echo FAIL; fi
     rm -f tests/zz_demo.rs
   else
     f=$(head -3 "$S/demo.rs" | grep -o "src/[A-Za-z0-9_/]*\.rs" | head -1)
@@ -30,7 +32,7 @@ run_demo() {   # prints PASS / FAIL
 orig=$(run_demo)
 if ! git apply --check "$S/patch.diff" 2>/dev/null && ! patch -p1 --dry-run -s < "$S/patch.diff" >/dev/null 2>&1; then echo "RESULT $NAME patch-does-not-apply"; exit 1; fi
 patch -p1 -s < "$S/patch.diff"
-if cargo test --offline --no-fail-fast >"$D/suite.log" 2>&1; then suite=PASS; else suite=FAIL; fi
+if cargo test --offline $FEAT --no-fail-fast >"$D/suite.log" 2>&1; then suite=PASS; else suite=FAIL; fi
 mod=$(run_demo)
 cd /verif
 out=$(VERIF_REPO="$D/repo" python3 -m vf.cli "$P" quick 2>&1); rc=$?
